@@ -36,10 +36,10 @@ OBLIGATIONS = [
        '100 series terms executed concretely, compared term by term (uninterpreted sin/exp/sqrt)', tus=TUS_OCE, stubs=STO + ['libm functions purely uninterpreted here (no axioms): the comparison is structural, term by term'], max_steps=3000000, libm_axioms=False),
     ob('C05.ridge', 'h_c05_ridge', [(0, 1), (1, 1)], ['distance is the Euclidean distance to the nearest point of the ridge polyline', 'distance is the smaller of the distances of the two longitude aliases\' nearest ridge points',
        'spreading velocity is interpolated at the chosen nearest ridge point (m/yr -> m/s)', 'end'], 'one ridge of 1..2 segments; Cartesian with the real distance, spherical with an uninterpreted great-circle distance (choice logic only)',
-       tus=['c05_ridge.cc'] + BASE, native=False, stubs=['spherical distance_between_points_at_same_depth -> uninterpreted function of the compared point (its formula is C19.gc)'], cases_thorough=[(0, 1), (1, 1), (0, 2), (1, 2)]),
+       tus=['c05_ridge.cc'] + BASE, native=False, stubs=['spherical distance_between_points_at_same_depth -> uninterpreted function of the compared point (its formula is C19.gc)'], cases_thorough=[(0, 1), (1, 1), (0, 2), (1, 2)], time_cap_thorough=900),
     ob('C05.line.uniformT', 'h_c05_line_uniform_T', [(0,), (1,)], ['the model query stores only to fresh memory', 'uniform temperature: the configured value combined by the declared operation', OUT, 'end'], 'slab and fault families, all parameters', tus=TUS_LINE),
     ob('C05.line.adiabaticT', 'h_c05_line_adiabatic_T', [(0,), (1,)], ['negative local constants are replaced by the global ones', 'adiabatic temperature: Tp*exp(alpha*g*depth/cp) with the model\'s constants', OUT, 'end'], 'slab and fault families', tus=TUS_LINE),
-    ob('C05.line.linearT', 'h_c05_line_linear_T', [(0,), (1,)], ['linear temperature: linear in the distance between the model\'s two bounds (negative end members => adiabat there)', OUT, 'end'], 'slab (top/bottom) and fault (center/side) families; bounds at least 1e-9 apart', tus=TUS_LINE),
+    ob('C05.line.linearT', 'h_c05_line_linear_T', [(0, 0), (1, 0)], ['linear temperature: linear in the distance between the model\'s two bounds (negative end members => adiabat there)', OUT, 'end'], 'slab (top/bottom) and fault (center/side) families; bounds at least 1e-9 apart', tus=TUS_LINE),
     ob('C05.line.uniformC', 'h_c05_line_uniform_C', [(0, 1), (1, 1), (0, 2), (1, 2)], ['uniform composition: a listed composition gets its fraction combined by the operation', 'uniform composition: replace clears the compositions it does not list', OUT, 'end'], '1..2 listed compositions', tus=TUS_LINE),
     ob('C05.line.uniformV', 'h_c05_line_uniform_V', [(0,), (1,)], ['uniform raw velocity: the configured vector combined by the operation', OUT, 'end'], 'slab and fault families', tus=TUS_LINE),
     ob('C05.plume.uniformT', 'h_c05_plume_uniform_T', [()], ['uniform temperature: the configured value combined by the declared operation', OUT, 'end'], 'all parameters', tus=TUS_LINE),
